@@ -271,9 +271,7 @@ theorem isRot90_of_mesh (f R : Fld) (a b : Nat) (wf : MeshWf f) (ha : a < f.mesh
       rw [h1, h2]
   · intro i
     rw [hv]
-    unfold rot90Arr rotIdx Mesh.nAt
-    simp only []
-    rw [wf.valid_shape]
+    exact ⟨_, rfl⟩
 
 /-- quarter turn of a scalar field: geometry, and every value is moved, none altered -/
 theorem rot90Fld_scalar (f R : Fld) (a b : Nat) (wf : MeshWf f) (hn : f.nvdim = 1) (ha : a < f.mesh.ndim)
@@ -360,7 +358,7 @@ theorem periodic_rot {f R : Fld} {a b : Nat} (hr : IsRot90 f R a b) (x : Nat) : 
   unfold periodic; rw [hr.bc, hr.dims]
 
 theorem fullyValid_rot {f R : Fld} {a b : Nat} (hr : IsRot90 f R a b) (hf : FullyValid f) : FullyValid R :=
-  fun i => by rw [hr.valid i]; exact hf _
+  fun i => by obtain ⟨j, hj⟩ := hr.valid i; rw [hj]; exact hf j
 
 /-- derivative of the turned field along the FIRST axis of the plane = (sign) derivative of the
 original along the SECOND axis at the cell the value came from: the line is the old line
@@ -548,5 +546,420 @@ theorem sumTo_swap (n a b : Nat) (ha : a < n) (hb : b < n) (hab : a ≠ b) (g : 
       · simp [h1, h2]
   rw [this]
   ring
+
+theorem rotIdx_congr (f g : Fld) (a b : Nat) (i : List Nat) (h : g.mesh = f.mesh) : rotIdx g a b i = rotIdx f a b i := by
+  unfold rotIdx; rw [h]
+
+/-- data part of a quarter turn of a scalar field (no geometry needed) -/
+theorem rot90Fld_scalar_data (f R : Fld) (a b : Nat) (hd : DimsOk f) (hs : f.data.shape = f.mesh.n)
+    (hn : f.nvdim = 1) (ha : a < f.mesh.ndim) (hb : b < f.mesh.ndim)
+    (h : rot90Fld f (f.mesh.region.dims.getD a "") (f.mesh.region.dims.getD b "") = .ok R) :
+    ∀ i, R.data.get i = f.data.get (rotIdx f a b i) := by
+  unfold rot90Fld at h
+  split at h
+  · cases h
+  · rw [indexOf?_getD _ a hd.2 (by rw [hd.1]; exact ha), indexOf?_getD _ b hd.2 (by rw [hd.1]; exact hb)] at h
+    simp only [] at h
+    have h1 : ¬ (1 < f.nvdim) := by omega
+    rw [if_neg h1] at h
+    obtain ⟨_, _, m3, _⟩ := mkFld_ok h
+    intro i
+    rw [m3]
+    unfold rot90Arr rotIdx Mesh.nAt
+    simp only []
+    rw [hs]
+
+/-! ### positional pairing -/
+
+theorem hasDup_cons (x : String) (xs : List String) : hasDup (x :: xs) = false ↔ x ∉ xs ∧ hasDup xs = false := by
+  simp [hasDup]
+
+theorem snd_mem_of_mem_zip {ls ds : List String} {p : String × String} (h : p ∈ List.zip ls ds) : p.2 ∈ ds := by
+  induction ls generalizing ds with
+  | nil => simp at h
+  | cons l ls ih =>
+    cases ds with
+    | nil => simp at h
+    | cons d ds =>
+      simp only [List.zip_cons_cons, List.mem_cons] at h
+      rcases h with rfl | h
+      · simp
+      · simp [ih h]
+
+theorem zip_inj_snd (ls ds : List String) (hd : hasDup ds = false) :
+    ∀ p ∈ List.zip ls ds, ∀ q ∈ List.zip ls ds, p.2 = q.2 → p = q := by
+  induction ls generalizing ds with
+  | nil => intro p hp; simp at hp
+  | cons l ls ih =>
+    cases ds with
+    | nil => intro p hp; simp at hp
+    | cons d ds =>
+      obtain ⟨hnd, hd'⟩ := (hasDup_cons d ds).mp hd
+      intro p hp q hq hpq
+      simp only [List.zip_cons_cons, List.mem_cons] at hp hq
+      rcases hp with rfl | hp
+      · rcases hq with rfl | hq
+        · rfl
+        · exact absurd (by have := snd_mem_of_mem_zip hq; rw [← hpq] at this; exact this) hnd
+      · rcases hq with rfl | hq
+        · exact absurd (by have := snd_mem_of_mem_zip hp; rw [hpq] at this; exact this) hnd
+        · exact ih ds hd' p hp q hq hpq
+
+theorem lookup_zip (ls ds : List String) (hl : hasDup ls = false) (a : Nat) (ha : a < ls.length) (hlen : ls.length = ds.length) :
+    Fld.lookup (List.zip ls ds) (ls.getD a "") = some (ds.getD a "") := by
+  induction ls generalizing ds a with
+  | nil => simp at ha
+  | cons l ls ih =>
+    cases ds with
+    | nil => simp at hlen
+    | cons d ds =>
+      obtain ⟨hnl, hl'⟩ := (hasDup_cons l ls).mp hl
+      rw [List.zip_cons_cons, lookup_cons]
+      cases a with
+      | zero => simp
+      | succ a =>
+        simp only [List.getD_cons_succ]
+        have hne : (l == ls.getD a "") = false := by
+          have hm : ls.getD a "" ∈ ls := getD_mem_of_lt ls a (by simpa using ha)
+          cases hq : l == ls.getD a "" with
+          | false => rfl
+          | true =>
+            have : l = ls.getD a "" := by simpa using hq
+            rw [← this] at hm
+            exact absurd hm hnl
+        rw [hne]
+        simp only [Bool.false_eq_true, if_false]
+        exact ih ds hl' a (by simpa using ha) (by simpa using hlen)
+
+/-- a field whose labels are mapped positionally (`labels[k] ↦ dims[k]`): the reversed mapping
+pairs axis `a` with stored component `a` -/
+theorem pos_pairing (g : Fld) (labels : List String) (hv : g.vdims = some labels)
+    (hm : g.vmap = List.zip labels g.mesh.region.dims) (hl : hasDup labels = false)
+    (hd : hasDup g.mesh.region.dims = false) (hlen : labels.length = g.mesh.region.dims.length)
+    (a : Nat) (ha : a < labels.length) :
+    (rDimLast g (g.mesh.region.dims.getD a "")).bind g.vdimIndex = some a := by
+  have h1 : Fld.lookup g.vmap (labels.getD a "") = some (g.mesh.region.dims.getD a "") := by
+    rw [hm]; exact lookup_zip labels _ hl a ha hlen
+  rw [rDimLast_of_lookup g _ _ (by rw [hm]; exact zip_inj_snd labels _ hd) h1]
+  simp only [Option.bind_some]
+  exact vdimIndex_getD g labels hv hl a ha
+
+theorem turnVec_getD (v : List Rat) (v1 v2 c : Nat) (h12 : v1 ≠ v2) (h1 : v1 < v.length) (h2 : v2 < v.length) :
+    (turnVec v v1 v2).getD c 0 = if c = v1 then -(v.getD v2 0) else if c = v2 then v.getD v1 0 else v.getD c 0 := by
+  unfold turnVec
+  by_cases hc2 : c = v2
+  · subst hc2
+    rw [getD_setAt_same _ _ _ _ (by rw [setAt_length]; exact h2)]
+    simp [Ne.symm h12]
+  · rw [getD_setAt_ne _ _ _ _ _ hc2]
+    by_cases hc1 : c = v1
+    · subst hc1
+      rw [getD_setAt_same _ _ _ _ h1]; simp
+    · rw [getD_setAt_ne _ _ _ _ _ hc1]; simp [hc1, hc2]
+
+/-- data part of a quarter turn of a vector field whose axes `a`, `b` are paired with the
+stored components `v1`, `v2` -/
+theorem rot90Fld_vector_data (f R : Fld) (a b v1 v2 : Nat) (hd : DimsOk f) (hs : f.data.shape = f.mesh.n)
+    (hn : 1 < f.nvdim) (ha : a < f.mesh.ndim) (hb : b < f.mesh.ndim)
+    (h1 : (rDimLast f (f.mesh.region.dims.getD a "")).bind f.vdimIndex = some v1)
+    (h2 : (rDimLast f (f.mesh.region.dims.getD b "")).bind f.vdimIndex = some v2)
+    (h : rot90Fld f (f.mesh.region.dims.getD a "") (f.mesh.region.dims.getD b "") = .ok R) :
+    ∀ i, R.data.get i = turnVec (f.data.get (rotIdx f a b i)) v1 v2 := by
+  unfold rot90Fld at h
+  split at h
+  · cases h
+  · rw [indexOf?_getD _ a hd.2 (by rw [hd.1]; exact ha), indexOf?_getD _ b hd.2 (by rw [hd.1]; exact hb)] at h
+    simp only [] at h
+    rw [if_pos hn, h1, h2] at h
+    simp only [] at h
+    obtain ⟨_, _, m3, _⟩ := mkFld_ok h
+    intro i
+    rw [m3]
+    unfold rot90Arr rotIdx Mesh.nAt
+    simp only []
+    rw [hs]
+
+
+theorem lshift_len {a b g : Fld} (h : lshift a b = .ok g) (i : List Nat) : (g.data.get i).length = g.nvdim := by
+  obtain ⟨_, _, m2, _, _, m3, _, _⟩ := lshift_ok h
+  rw [m3 i, m2]; simp [cellv_length]
+
+theorem stackGo_len (ds : List Fld) : ∀ (acc g : Fld), ds ≠ [] → stackGo acc ds = .ok g →
+    ∀ i, (g.data.get i).length = g.nvdim := by
+  induction ds with
+  | nil => intro _ _ h; exact absurd rfl h
+  | cons d ds ih =>
+    intro acc g _ h
+    simp only [stackGo] at h
+    split at h
+    · cases h
+    · rename_i r hr
+      cases ds with
+      | nil => simp only [stackGo] at h; injection h with h; subst h; exact lshift_len hr
+      | cons d' ds' => exact ih r g (by simp) h
+
+theorem grad_len {f g : Fld} (hnd : 2 ≤ f.mesh.region.dims.length) (h : grad f = .ok g) :
+    ∀ i, (g.data.get i).length = g.nvdim := by
+  unfold grad at h
+  split at h
+  · cases h
+  · split at h
+    · cases h
+    · rename_i ds hds
+      obtain ⟨l, _⟩ := mapE_ok _ _ _ hds
+      cases ds with
+      | nil => simp [stack] at h
+      | cons d0 ds' =>
+        simp only [stack] at h
+        exact stackGo_len ds' d0 g (by intro he; subst he; simp at l; omega) h
+
+theorem posVdims_nodup (n : Nat) (h2 : 2 ≤ n) (h4 : n ≤ 4) :
+    ∃ labels, posVdims n = some labels ∧ labels.length = n ∧ hasDup labels = false := by
+  have : n = 2 ∨ n = 3 ∨ n = 4 := by omega
+  rcases this with rfl | rfl | rfl
+  · exact ⟨["x", "y"], by decide, rfl, by decide⟩
+  · exact ⟨["x", "y", "z"], by decide, rfl, by decide⟩
+  · exact ⟨["v0", "v1", "v2", "v3"], by decide, rfl, by decide⟩
+
+theorem div_shape {f g : Fld} (h : div f = .ok g) : g.data.shape = f.data.shape := by
+  unfold div at h
+  split at h
+  · cases h
+  · split at h
+    · cases h
+    · rename_i vs hvs
+      split at h
+      · cases h
+      · split at h
+        · cases h
+        · rename_i ts hts
+          obtain ⟨t0, h0, hs⟩ := sumF_shape h
+          rw [hs]
+          obtain ⟨l, e⟩ := mapE_ok _ _ _ hts
+          cases ts with
+          | nil => simp at h0
+          | cons t ts' =>
+            simp at h0; subst h0
+            have hpos : 0 < vs.length := by rw [← l]; simp
+            have h00 := e 0 hpos (by simp)
+            simp only [List.getElem_cons_zero] at h00
+            unfold divTerm at h00
+            split at h00
+            · cases h00
+            · split at h00
+              · cases h00
+              · rename_i comp hcomp
+                rw [diffDim_shape h00]
+                cases hk : f.vdimIndex (vs[0]'hpos) with
+                | none => simp only [getComp, hk] at hcomp; cases hcomp
+                | some k => exact (getComp_ok hk hcomp).2.2.2.2.2.2.1
+
+/-- labels and mapping of a turned vector field are the operand's -/
+theorem rot90Fld_vector_meta (f R : Fld) (a b : Nat) (vs : List String) (hd : DimsOk f) (hn : 1 < f.nvdim)
+    (hv : f.vdims = some vs) (hvl : vs.length = f.nvdim)
+    (ha : a < f.mesh.ndim) (hb : b < f.mesh.ndim) (hmap : 0 < f.vmap.length)
+    (h : rot90Fld f (f.mesh.region.dims.getD a "") (f.mesh.region.dims.getD b "") = .ok R) :
+    R.vdims = some vs ∧ R.vmap = f.vmap ∧ R.nvdim = f.nvdim ∧ R.valid = rot90Arr f.valid a b ∧
+    rotMesh f.mesh (f.mesh.region.dims.getD a "") (f.mesh.region.dims.getD b "") = .ok R.mesh := by
+  unfold rot90Fld at h
+  split at h
+  · cases h
+  · rename_i mesh' hmesh
+    rw [indexOf?_getD _ a hd.2 (by rw [hd.1]; exact ha), indexOf?_getD _ b hd.2 (by rw [hd.1]; exact hb)] at h
+    simp only [] at h
+    rw [if_pos hn] at h
+    split at h
+    · obtain ⟨m1, m2, _, m4, _, _, m7, m8⟩ := mkFld_ok h
+      rw [hv] at m7
+      have hne : vs ≠ [] := by intro he; subst he; simp at hvl; omega
+      obtain ⟨r1, _, _⟩ := vdimsSet_some hne m7
+      refine ⟨r1, ?_, m2, m4, by rw [m1]; exact hmesh⟩
+      rw [r1] at m8
+      unfold vmapSet at m8
+      simp only [] at m8
+      split at m8
+      · rename_i hc; exact absurd hc.2.2 (by simp)
+      · split at m8 <;>
+          first
+          | (injection m8 with e; exact e.symm)
+          | cases m8
+    · cases h
+
+/-- `Mesh.rotate90` accepts every pair of different axes of a well-formed mesh without subregions -/
+theorem rotMesh_succeeds (f : Fld) (a b : Nat) (wf : MeshWf f) (hsub : f.mesh.subs = [])
+    (ha : a < f.mesh.ndim) (hb : b < f.mesh.ndim) (hab : a ≠ b) :
+    ∃ m', rotMesh f.mesh (f.mesh.region.dims.getD a "") (f.mesh.region.dims.getD b "") = .ok m' := by
+  unfold rotMesh
+  rw [if_neg (dims_ne_of_ne f wf.dims a b ha hb hab)]
+  rw [indexOf?_getD _ a wf.dims.2 (by rw [wf.dims.1]; exact ha),
+      indexOf?_getD _ b wf.dims.2 (by rw [wf.dims.1]; exact hb)]
+  simp only []
+  have hpl : f.mesh.region.pmin.length = f.mesh.ndim := rfl
+  have hr : ∃ r, rotRegion f.mesh.region a b f.mesh.region.center = .ok r := by
+    unfold rotRegion Region.mk?
+    have l1 : ∀ u v, (setAt (setAt f.mesh.region.pmin a u) b v).length = f.mesh.ndim := by
+      intro u v; rw [setAt_length, setAt_length]; rfl
+    have l2 : ∀ u v, (setAt (setAt f.mesh.region.pmax a u) b v).length = f.mesh.ndim := by
+      intro u v; rw [setAt_length, setAt_length]; exact wf.pmax_len
+    rw [l1, l2]
+    simp only [ne_eq, not_true_eq_false, if_false]
+    have hn0 : ¬ (f.mesh.ndim = 0) := by omega
+    simp only [hn0, if_false]
+    unfold Region.dimsOk Region.unitsOk
+    simp only [wf.dims.1, wf.dims.2, ne_eq, not_true_eq_false, if_false, Bool.false_eq_true, swapAt_length, wf.units_len]
+    have hall : allLt f.mesh.ndim (fun x => decide (
+        (setAt (setAt f.mesh.region.pmin a ((f.mesh.region.center).getD a 0 - (f.mesh.region.lo b - (f.mesh.region.center).getD b 0))) b
+            ((f.mesh.region.center).getD b 0 + (f.mesh.region.lo a - (f.mesh.region.center).getD a 0))).getD x 0 ≠
+        (setAt (setAt f.mesh.region.pmax a ((f.mesh.region.center).getD a 0 - (f.mesh.region.hi b - (f.mesh.region.center).getD b 0))) b
+            ((f.mesh.region.center).getD b 0 + (f.mesh.region.hi a - (f.mesh.region.center).getD a 0))).getD x 0)) = true := by
+      rw [allLt_iff]
+      intro x hx
+      have pa := (wf.pos a ha).1
+      have pb := (wf.pos b hb).1
+      have px := (wf.pos x hx).1
+      simp only [decide_eq_true_eq]
+      by_cases hxa : x = a
+      · subst hxa
+        rw [getD_setAt_ne _ _ _ _ _ hab, getD_setAt_ne _ _ _ _ _ hab,
+          getD_setAt_same _ _ _ _ (by rw [hpl]; exact hx), getD_setAt_same _ _ _ _ (by rw [wf.pmax_len]; exact hx)]
+        intro he; linarith
+      · by_cases hxb : x = b
+        · subst hxb
+          rw [getD_setAt_same _ _ _ _ (by rw [setAt_length, hpl]; exact hx),
+            getD_setAt_same _ _ _ _ (by rw [setAt_length, wf.pmax_len]; exact hx)]
+          intro he; linarith
+        · rw [getD_setAt_ne _ _ _ _ _ hxb, getD_setAt_ne _ _ _ _ _ hxa,
+            getD_setAt_ne _ _ _ _ _ hxb, getD_setAt_ne _ _ _ _ _ hxa]
+          unfold Region.lo Region.hi at px
+          intro he; rw [he] at px; exact absurd px (lt_irrefl _)
+    rw [hall]
+    simp only [Bool.not_true, Bool.false_eq_true, if_false]
+    exact ⟨_, rfl⟩
+  obtain ⟨r, hr⟩ := hr
+  rw [hr, hsub]
+  simp only [mapE]
+  unfold rotRegion at hr
+  obtain ⟨r1, _, r3, _⟩ := regionMk_ok hr
+  unfold Mesh.mkN?
+  have c1 : ¬ ((swapAt f.mesh.n a b).length ≠ r.ndim) := by
+    unfold Region.ndim
+    rw [swapAt_length, wf.n_len, r1, tab_length, setAt_length, setAt_length]
+    simp; rfl
+  have c2 : (swapAt f.mesh.n a b).any (· = 0) = false := by
+    rw [List.any_eq_false]
+    intro x hx
+    simp only [decide_eq_true_eq]
+    obtain ⟨k, hk, hk'⟩ := List.getElem_of_mem hx
+    have hkn : k < f.mesh.ndim := by rw [swapAt_length, wf.n_len] at hk; exact hk
+    have hx' : x = (swapAt f.mesh.n a b).getD k 0 := by
+      rw [List.getD_eq_getElem?_getD, List.getElem?_eq_getElem hk, Option.getD_some, hk']
+    rw [hx']
+    have pos : ∀ y, y < f.mesh.ndim → f.mesh.n.getD y default ≠ 0 := by
+      intro y hy
+      have := (wf.pos y hy).2
+      unfold Mesh.nAt at this
+      exact Nat.pos_iff_ne_zero.mp this
+    by_cases hka : k = a
+    · subst hka
+      rw [swapAt_getD_left _ _ _ _ hab (by rw [wf.n_len]; exact ha)]
+      exact pos b hb
+    · by_cases hkb : k = b
+      · subst hkb
+        rw [swapAt_getD_right _ _ _ _ (by rw [wf.n_len]; exact hb)]
+        exact pos a ha
+      · rw [swapAt_getD_other _ _ _ _ _ hka hkb]
+        exact pos k hkn
+  have c3 : Mesh.bcOk r.dims f.mesh.bc.toLower = true := by rw [r3, wf.bc_lower]; exact wf.bc_ok
+  simp only [c1, c2, c3, if_false, Bool.false_eq_true, Bool.not_true]
+  exact ⟨_, rfl⟩
+
+/-- `Field.rotate90` accepts every plain scalar field on a well-formed mesh without subregions -/
+theorem rot90_accepts_plain (f : Fld) (a b : Nat) (wf : MeshWf f) (hsub : f.mesh.subs = []) (hp : Plain f)
+    (ha : a < f.mesh.ndim) (hb : b < f.mesh.ndim) (hab : a ≠ b) :
+    ∃ R, rot90Fld f (f.mesh.region.dims.getD a "") (f.mesh.region.dims.getD b "") = .ok R := by
+  obtain ⟨m', hm'⟩ := rotMesh_succeeds f a b wf hsub ha hb hab
+  unfold rot90Fld
+  rw [hm']
+  simp only []
+  rw [indexOf?_getD _ a wf.dims.2 (by rw [wf.dims.1]; exact ha),
+      indexOf?_getD _ b wf.dims.2 (by rw [wf.dims.1]; exact hb)]
+  simp only []
+  have h1 : ¬ (1 < f.nvdim) := by rw [hp.1]; omega
+  rw [if_neg h1, hp.1, hp.2.1, hp.2.2]
+  exact mk_plain_succeeds _ _ _ _ [] (by simp)
+
+theorem rot90_plain {f R : Fld} {da db : String} (hp : Plain f) (h : rot90Fld f da db = .ok R) : Plain R := by
+  unfold rot90Fld at h
+  split at h
+  · cases h
+  · split at h
+    · have h1 : ¬ (1 < f.nvdim) := by rw [hp.1]; omega
+      rw [if_neg h1, hp.1, hp.2.1, hp.2.2] at h
+      exact mk_plain h
+    · cases h
+
+/-- a well-formed mesh stays well formed under any field that lives on it with a mesh-shaped array -/
+theorem meshWf_of_mesh {f g : Fld} (wf : MeshWf f) (hm : g.mesh = f.mesh) (hs : g.data.shape = g.mesh.n) : MeshWf g :=
+  ⟨by rw [hm]; exact wf.pmax_len, by rw [hm]; exact wf.n_len, by unfold DimsOk; rw [hm]; exact wf.dims,
+   by rw [hm]; exact wf.units_len, by rw [hm]; exact wf.pos, by rw [hm]; exact wf.bc_lower,
+   by rw [hm]; exact wf.bc_ok, hs⟩
+
+theorem plain_of_laplace_scalar {f g : Fld} (hp : Plain f) (h : laplace f = .ok g) : Plain g := by
+  unfold laplace at h
+  rw [if_pos hp.1] at h
+  split at h
+  · cases h
+  · rename_i ts hts
+    exact sumF_plain (mapE_all _ Plain (fun x y hy => diffDim_plain hp hy) _ _ hts) h
+
+/-- `Field.rotate90` accepts a vector field with well-formed labels, a mapping whose keys are the
+labels, and both axes of the plane paired with a component -/
+theorem rot90_accepts_vector (f : Fld) (a b v1 v2 : Nat) (vs : List String) (wf : MeshWf f) (hsub : f.mesh.subs = [])
+    (hn : 1 < f.nvdim) (hv : f.vdims = some vs) (hvl : vs.length = f.nvdim) (hvd : hasDup vs = false)
+    (hkeys : (f.vmap.map (·.1)).isPerm vs = true) (hmap : 0 < f.vmap.length)
+    (ha : a < f.mesh.ndim) (hb : b < f.mesh.ndim) (hab : a ≠ b)
+    (h1 : (rDimLast f (f.mesh.region.dims.getD a "")).bind f.vdimIndex = some v1)
+    (h2 : (rDimLast f (f.mesh.region.dims.getD b "")).bind f.vdimIndex = some v2) :
+    ∃ R, rot90Fld f (f.mesh.region.dims.getD a "") (f.mesh.region.dims.getD b "") = .ok R := by
+  obtain ⟨m', hm'⟩ := rotMesh_succeeds f a b wf hsub ha hb hab
+  unfold rot90Fld
+  rw [hm']
+  simp only []
+  rw [indexOf?_getD _ a wf.dims.2 (by rw [wf.dims.1]; exact ha),
+      indexOf?_getD _ b wf.dims.2 (by rw [wf.dims.1]; exact hb)]
+  simp only []
+  rw [if_pos hn, h1, h2]
+  simp only []
+  unfold mkFld vdimsSet vmapSet
+  rw [hv]
+  have c0 : ¬ (f.nvdim < 1) := by omega
+  have c1 : ¬ (vs.length = 0) := by omega
+  have c2 : ¬ (vs.length ≠ f.nvdim) := by omega
+  simp only [c0, c1, c2, hvd, if_false, Bool.false_eq_true]
+  have c3 : ¬ (f.vmap.length = 1 ∧ f.nvdim = 1 ∧ some vs = none) := by simp
+  simp only [c3, if_false, hmap, if_true, hkeys]
+  exact ⟨_, rfl⟩
+
+theorem plain_of_div {f g : Fld} (h : div f = .ok g) : Plain g := by
+  unfold div at h
+  split at h
+  · cases h
+  · split at h
+    · cases h
+    · split at h
+      · cases h
+      · split at h
+        · cases h
+        · rename_i ts hts
+          apply sumF_plain _ h
+          apply mapE_all _ Plain _ _ _ hts
+          intro v y hy
+          unfold divTerm at hy
+          split at hy
+          · cases hy
+          · split at hy
+            · cases hy
+            · rename_i c hc
+              exact diffDim_plain (getComp_plain hc) hy
 
 end DFV.C05
